@@ -94,6 +94,7 @@ func (o *Op) String() string {
 // Step is one action of a receiver's window controller within a phase.
 type Step struct {
 	After int    // fire once the peer's sender has completed this many ops of the phase
+	SF    bool   // act "exact": stream-level grants before the connection-level one
 	Act   string // "wu"
 	S     uint32 // stream (0 = connection)
 	T     int
@@ -107,6 +108,9 @@ type Change struct {
 	ID    http2.SettingID
 	Val   uint32
 	Lower bool
+	// Dup, if set, is sent in the same SETTINGS frame before Val under the same identifier (RFC 7540
+	// 6.5.3: values are processed in order, the last one is effective); only used when nothing is queued
+	Dup *uint32
 	// probe only: lower without draining, once exactly WaitRecv payload bytes have been received
 	NoDrain  bool
 	WaitRecv int64
@@ -115,6 +119,7 @@ type Change struct {
 type Phase struct {
 	Ops      [2][]*Op
 	Ctl      [2][]Step
+	ExactSF  [2]bool // exact-credit grants: stream-level WINDOW_UPDATEs before the connection-level one
 	EndExact [2]bool // receiver grants exactly the missing credit at the end of the phase (then no-strand is checked)
 	EndAmple [2]bool // receiver grants ample credit at the end of the phase
 	After    []Change
@@ -138,6 +143,7 @@ type Plan struct {
 	BigFrames  [2]bool
 	Phases     []*Phase
 	NStreams   int
+	SlowWriter bool // the relay's writer goroutines are slowed down at the beforeSend hook point
 	NPush      int
 }
 
@@ -255,6 +261,7 @@ func Gen(rng *rand.Rand, pf Profile) *Plan {
 	}
 	p.SegC = pick(rng, "full", "full", "small", "byte", "mixed")
 	p.SegS = pick(rng, "full", "full", "small", "byte", "mixed")
+	p.SlowWriter = rng.Intn(6) == 0
 	nPh := 1 + rng.Intn(3)
 	K := 1 + rng.Intn(pf.MaxStreams)
 	if rng.Intn(3) == 0 && K > 2 {
@@ -362,7 +369,14 @@ func Gen(rng *rand.Rand, pf Profile) *Plan {
 					} else {
 						raise = true
 					}
-					p.addChange(ph, Change{E: e, ID: http2.SettingInitialWindowSize, Val: uint32(nv), Lower: nv < v}, nPh)
+					ch := Change{E: e, ID: http2.SettingInitialWindowSize, Val: uint32(nv), Lower: nv < v}
+					if ch.Lower && rng.Intn(4) == 0 {
+						d := []uint32{0, 1, 60000, 1 << 20}[rng.Intn(4)]
+						if d != ch.Val {
+							ch.Dup = &d
+						}
+					}
+					p.addChange(ph, ch, nPh)
 					v = nv
 				}
 			}
@@ -417,6 +431,26 @@ func Gen(rng *rand.Rand, pf Profile) *Plan {
 			st = append(st, http2.Setting{ID: http2.SettingEnablePush, Val: 1})
 		}
 		rng.Shuffle(len(st), func(i, j int) { st[i], st[j] = st[j], st[i] })
+		// the same identifier twice in one frame: legal, processed in order, the last value counts
+		// (only in the initial SETTINGS, where nothing can be queued yet)
+		if rng.Intn(5) == 0 {
+			for i, x := range st {
+				var dup uint32
+				switch x.ID {
+				case http2.SettingInitialWindowSize:
+					dup = []uint32{0, 1, 100, 60000, 65535, 1 << 20}[rng.Intn(6)]
+				case http2.SettingMaxFrameSize:
+					dup = []uint32{16384, 32768, 1 << 20}[rng.Intn(3)]
+				default:
+					continue
+				}
+				if dup != x.Val {
+					at := rng.Intn(i + 1)
+					st = append(st[:at], append([]http2.Setting{{ID: x.ID, Val: dup}}, st[at:]...)...)
+				}
+				break
+			}
+		}
 		p.Init[e].Settings = st
 		p.BigFrames[e] = rng.Intn(2) == 0 || resplit == 1-e
 	}
@@ -1002,6 +1036,10 @@ func Gen(rng *rand.Rand, pf Profile) *Plan {
 				case "huge":
 					st.Inc = uint32(1<<20 + rng.Intn(1<<26))
 				}
+				if c09 && rng.Intn(4) == 0 {
+					// exactly the credit that is missing right now, stream-level or connection-level first
+					st.Act, st.SF = "exact", rng.Intn(2) == 0
+				}
 				if p.WinClass[x] == "connlimited" {
 					st.S = 0 // connection-level credit only
 					if st.Inc > 70000 {
@@ -1021,6 +1059,7 @@ func Gen(rng *rand.Rand, pf Profile) *Plan {
 			}
 			phs.Ctl[x] = steps
 			phs.EndExact[x] = c09 && rng.Intn(2) == 0
+			phs.ExactSF[x] = rng.Intn(2) == 0
 			phs.EndAmple[x] = lastPhase || rng.Intn(2) == 0
 			if x == resplit && phi == 0 {
 				phs.EndAmple[x] = false
